@@ -20,7 +20,7 @@ CHECKS = {
         "rank 0/1 data, homogeneous and per-face values: the single store performed by the interpreted setter and by the compiled "
         "setter is extracted and proved to write exactly the virtual point of that side for all valid transverse cells (normal "
         "component iff `normal`), to read the adjacent cells with equal transverse/component indices, and to satisfy the defining "
-        "equation identically in value, spacing and shape. Documented aliases are tied to the family whose equation was proved.",
+        "equation identically in value, spacing and shape. Documented aliases are tied to the family whose equation was proved. Copies keep parameters: for every boundary-condition class the resolved copy() (following super().copy) rebuilds self.__class__ with every constructor parameter, each filled from the value the object was constructed with or restored unconditionally afterwards. Specification dictionaries: _parse_from_dict is interpreted on the whole key-presence lattice of an axis (wildcard, axis, one-sided, alias keys) and realises the documented precedence side/alias > axis > wildcard.",
         "note": "Trusted: CPython ast, sympy, sympy.parse_expr for the f-string templates, numba compiling Python semantics. Assumes >= 2 "
         "cells per axis. Not decided: meaning of arbitrary user expressions (C11); compiled MixedBC with linked value arrays; the "
         "parsing of nested BC specifications beyond the alias registry.",
@@ -44,7 +44,7 @@ CHECKS = {
         "matrix row and vector entry is proved equal to the numba Laplace stencil with virtual points eliminated through "
         "get_virtual_point_data (so solving the matrix problem is solving the discrete problem the operators define). Additionally: "
         "no '=' after '+=' on one entry, every path of solve_poisson that writes the result passed an allclose(mat.dot(x), rhs) test, "
-        "and solve_laplace_equation delegates to the Poisson solver.",
+        "and solve_laplace_equation delegates to the Poisson solver. The residual test is decided semantically: it compares matrix*x with (arr - vector) for the very value stored into `out`, on the unscaled system (or with a correspondingly scaled constant tolerance). solve_poisson_equation lets every solver failure propagate (no handler path completes normally). Anti-periodic axes are covered and the axis objects are instances of the class the package uses (BoundaryPeriodic).",
         "note": "Trusted: CPython ast, sympy, numpy C-order ravel, scipy.sparse dok semantics (=, +=, setdiag, *=). Symbolic rows assume "
         "N >= 3 per axis, N = 2 covered concretely for 1-2 axes. Not decided: accuracy of spsolve/lsmr beyond the residual test.",
     },
@@ -57,7 +57,7 @@ CHECKS = {
         "operator-application bodies (numpy, numba apply_op, both overload implementations) have the same effect summary and hand `args` "
         "to the boundary conditions by keyword exactly once; every set_ghost_cells call site is compatible with the keyword-only `args`; "
         "every nb.prange kernel is free of loop-carried dependences and uses the common parallel flag, hence is schedule independent. "
-        "The sparse-matrix route is decided by C18.",
+        "The sparse-matrix route is decided by C18. Additionally: dot and outer products (field methods, numpy closures, numba overloads; every rank combination; out given and allocated; conjugation on/off) are interpreted on arrays of distinct symbols -- every route returns, fills `out` and yields identical entries; every store inside a prange loop goes to memory private to the iteration (syntax-level shared-write scan); the sparse-matrix rows of all Laplace assemblers equal the numba stencil with ghost cells eliminated (extraction shared with C18, incl. anti-periodic axes).",
         "note": "Sibling agreement, not an independent oracle (C01/C02 supply that). Trusted: documented semantics of ndimage.correlate1d/"
         "laplace, numba faithfully compiling Python, LLVM. Not decided: size of round-off differences between routes.",
     },
@@ -69,7 +69,7 @@ CHECKS = {
         "ignore_args hides a used argument; every array whose address is captured by a cached result is either keyed by address or the "
         "per-object cache is dropped on every re-binding path; PDE._prepare_cache compares everything the rhs compilation reads from "
         "`state`. Decided for all inputs and histories over the annotated types; not a proof because annotations and the call-graph "
-        "approximation are trusted.",
+        "approximation are trusted. Cached results are not objects with a public mutation interface (item assignment, in-place operators, public property setters), so one cached instance cannot be customised by one caller for all later ones.",
         "note": "Trusted: CPython ast, parameter annotations, the Python data model (__eq__ without __hash__ means unhashable), class-hierarchy "
         "call resolution (unresolved calls with tracked arguments are listed in the evidence). Assumes fixed global configuration and no "
         "mutation of public PDE/BC attributes between calls. Unannotated / Any / **kwargs values are listed as unclassified.",
@@ -82,7 +82,7 @@ CHECKS = {
         "reports it as t_final. Every fixed stepper on numpy and numba (plus jax/torch in the thorough tier) computes steps = "
         "max(1, round(delta/dt)), accounts it once on every path, runs exactly `steps` iterations at t_start + i*dt, and returns "
         "t_start + steps*dt identically, hence within dt/2 of t_end for delta >= dt/2. No tracker `handle` in the package writes through, "
-        "mutates in place, or retains a view of the state.",
+        "mutates in place, or retains a view of the state. Data carried between stepper calls (post-step hook data) is read from solver.info at each call and stored back in every stepper; no factory-time snapshot is used inside a stepper. An unknown loop idiom of the interpreted fixed stepper is decided by a witness search on its control skeleton (exact rational times, recording stand-ins); without a witness it stays an analysis error.",
         "note": "Trusted: ast, sympy simplification, |round(x) - x| <= 1/2, numba compiling Python semantics. Assumes copy() is independent (C15), "
         "storages copy (C20), user callables are read-only. Not decided: that per-segment roundings add up to exactly N steps / bit-identical "
         "states for all (dt, interval, range) -- a floating-point statement over unbounded inputs.",
@@ -95,7 +95,7 @@ CHECKS = {
         "re-raised. Controller._run_main_process handles once before each single stepper call, has exactly one final handle on the "
         "no-exception exit, and reaches neither stepper nor handle after a stop; finalize, t_final and stop_reason cover all non-raising "
         "exits, tolerances are 0.5*dt and 1e-6*dt at every site; the storage tracker pairs start, append(time=t) and end. Necessary "
-        "structural conditions, for all inputs.",
+        "structural conditions, for all inputs. The half-step tracker tolerance is confined to fixed stepping (on the adaptive branch the tracker tolerance is the loop tolerance, so scheduled times are served exactly); a stop raised in the final handle re-assigns the stop reason; the interpreted fixed stepper lands on the step nearest to the requested time (control-skeleton witness search shared with C07).",
         "note": "Trusted: CPython ast, the pdelint.cfg exception model (implicit raises only from calls inside try). Assumes trackers signal a stop "
         "only by StopIteration or a subclass. Not decided: frame counts floor(T/D)+1 for arbitrary D/dt (float arithmetic).",
     },
@@ -117,7 +117,7 @@ CHECKS = {
         "re-binds; constructor, copy, arithmetic, out-less operator calls, collection copy/slice/append return memory that aliases no "
         "operand; binary operations never write an operand; in-place operations and setters write valid cells of self only; component "
         "access returns views of the parent; a collection lays members out in field order and links every member to a slice of its own "
-        "fresh array.",
+        "fresh array. The constructor adopts a padded array only on the caller's own with_ghost_cells request (never for a field passed as data, never after re-binding the flag).",
         "note": "Trusted: CPython ast; documented numpy copy/view semantics; loops taken 0/1 times, explicit raises only; results of "
         "tools.expressions.evaluate not analysed. Not decided: aliasing introduced by numpy for exotic dtypes/strides.",
     },
@@ -127,7 +127,7 @@ CHECKS = {
         "text": "For all call sequences: an appended frame is a fresh copy of the data argument, appended together with its time stamp; no method "
         "lets times and data get out of step on any path, including raising ones; frames read back are fresh copies of the template filled "
         "by value; start_writing realises exactly the documented mode table and rejects readonly before writing anything; extract_field "
-        "copies, extract_time_range and items pair by identical indices, clear empties both lists.",
+        "copies, extract_time_range and items pair by identical indices, clear empties both lists. The stored copy is exact (no cast by a dtype that is not the frame's own); the storage owns its `times` list on every constructor path (derived storages do not share it with their source).",
         "note": "Trusted: CPython ast; numpy copy semantics (np.array/copy=True/.copy()/np.copy allocate; indexing, asarray, reshape share). Assumes "
         "loops unrolled 0/1 and only explicit raises; from_fields/extract_time_range sharing is by design and outside the statement.",
     },
@@ -140,7 +140,7 @@ CHECKS = {
         "on du/dt = a u; implicit Euler and Crank-Nicolson (any explicit_fraction) via the fixed point of the extracted iteration map "
         "(1/(1-z), (1+z/2)/(1-z/2)); Adams-Bashforth recursion, start-up value and evaluation times; python and numba versions of "
         "Adams-Bashforth and of both adaptive loops are equal as extracted summaries (step clamp max(min(dt_opt, t_end-t), dt_min), "
-        "acceptance, time advance, step accounting, dt-adjustment inputs), and adaptive Euler keeps rate == rhs(state, t).",
+        "acceptance, time advance, step accounting, dt-adjustment inputs), and adaptive Euler keeps rate == rhs(state, t). The convergence measure of the three fixed-point iterations is the mean over the cells of |new iterate - previous iterate|^2 (proved on diff = x + i*y, hence positive definite for complex fields) compared with maxerror**2.",
         "note": "Trusted: CPython ast, sympy, numba compiling Python semantics; post-step hooks assumed identity. Not decided: convergence of "
         "fixed-point iterations, the global error bound of adaptive stepping, scipy's integrator, round-off equality between backends; the "
         "fixed-step loop skeleton is decided by C07.",
@@ -153,7 +153,7 @@ CHECKS = {
         "from u + sqrt(var*dt/V)*xi) identically in all symbols, for alpha = 0 and alpha != 0, with the cell volume V. Exactly one normal "
         "draw per step, after all field-dependent evaluations at the pre-step state, from the generator pde.rng; numpy noise is "
         "rng.standard_normal(shape); the interpretation table and the is_sde dispatch (vanishing variance -> deterministic closure) are "
-        "evaluated from source; per-field variances are written to the field's own slice.",
+        "evaluated from source; per-field variances are written to the field's own slice. PDEBase.__init__ binds self.rng to np.random.default_rng(<the parameter, untouched>): the draws are those of the generator given.",
         "note": "Trusted: CPython ast, sympy, numpy's Generator. Not decided: numba's own generator (outside the bit-for-bit clause), user "
         "supplied noise realisations, float round-off.",
     },
@@ -163,7 +163,7 @@ CHECKS = {
         "text": "For every concrete grid class, each piece of identity filled from a constructor parameter is read by `state`; state, from_state "
         "and constructor key sets coincide; copy, deepcopy, JSON and pickle route through them. Field attribute keys written equal those "
         "consumed, with an inverse (de)serialiser pair per key. Every tensor component count uses `dim`. Collection slices are cumulative "
-        "in field order.",
+        "in field order. A reader property used by `state` may drop a leaf (radius -> bare outer radius) only under a condition that implies the exact value of the leaf, equal to the constructor's default for the collapsed form. StorageBase.start_writing refreshes info['field_attributes'] from the field on every completing path.",
         "note": "Trusted: CPython ast; sympy for cursor differences; getter/setter coherence; the conversion whitelist "
         "(tuple/list/float/int/bool/np.array/.copy); the rank/dim identifier table. Not decided: JSON float exactness; h5py/movie readers "
         "beyond the shared (de)serialisers.",
@@ -174,7 +174,7 @@ CHECKS = {
         "text": "Every bookkeeping ingredient of an exact tiling holds for all shapes and decompositions: one integer partition; start=end "
         "chaining on the parent lattice; slice chaining with overlap 2 iff ghost cells; a symmetric, periodicity-respecting neighbour "
         "table; _MPIBC reads -2|1 and writes -1|0; an MPI condition iff a neighbour exists; every to_subgrid and from_bounds reconstructs "
-        "with the same parameters.",
+        "with the same parameters. A chunk partition that is not of the proved linspace form is evaluated in floating point on its syntax tree for all admissible (cells, chunks) up to 96: a pair whose sizes do not partition the cells is a violation with that witness.",
         "note": "Trusted: documented semantics of np.linspace, astype(int), diff and (un)ravel_index; the small-model argument for mesh sizes "
         "<= 7 (guards compare k with 0 and size-1 only). Not decided: end-to-end operator equality under MPI execution.",
     },
@@ -186,7 +186,7 @@ CHECKS = {
         "the extracted _pos_to_cart, and the scale factors equal to the column norms. (b) One component order: the order used by operators "
         "and name access (axes + symmetric axes) is computed per grid class and every subscript of a coordinate-ordered container by a "
         "component index, and every einsum contracting component data with basis_rotation without re-indexing, is reported where the orders "
-        "differ (cylindrical grids); component naming sites all use axes + axes_symmetric.",
+        "differ (cylindrical grids); component naming sites all use axes + axes_symmetric. (c) Component algebra: every implementation of dot products (four rank combinations), outer products, transposition and the basis change to Cartesian components (field methods, numpy and numba back-ends, coordinate classes) is interpreted on arrays of distinct symbols; each entry equals the defining index formula. (d) Conversion routes: VectorField.interpolate_to_grid rotates with _vector_to_cartesian unless the basis is unchanged, the base implementation refuses, FieldCollection converts each member with the member's own interpolate_to_grid.",
         "note": "Trusted: CPython ast, sympy/Groebner reduction. Chart domains r>0, theta, sigma in (0, pi). One known finding is listed in "
         "known_findings.json (GridBase._vector_to_cartesian on cylindrical grids; the repository's own test pins the wrong order). The "
         "typing pass tracks indices produced by get_axis_index and parameters named `components` only.",
@@ -201,7 +201,7 @@ CHECKS = {
         "inverse affine maps with centres at index + 1/2; normalize_point equals the periodic / reflect templates (range, idempotence and "
         "whole-period moves follow by the modulo lemma) in both code branches; integrate uses exactly the cell-volume factors of the "
         "integrated axes; the periodic flags/bounds given to _difference_vector are Cartesian-indexed and tied to the Cartesian direction "
-        "of the periodic grid axis.",
+        "of the periodic grid axis. Every returning path of every grid slice() hands the sub-grid constructor exactly the bounds (both ends; reader properties such as `radius` must be lossless), shape and periodicity of the retained axes; ScalarField.project/slice retain the sorted complement of the removed axes and reduce over exactly those; the radial volume factor of the cylinder equals the polar cell volume. normalize_point (all periodicity-flag combinations x reflect x scalar/point/batch) and integrate (Cartesian/cylindrical/spherical volume data x data rank 0/1/number x all axes selections) are decided by interpreting the source on arrays of symbols.",
         "note": "Trusted: CPython ast, sympy (integrate, summation, simplify), the modulo lemma. Inverse maps of bipolar/bispherical (and angles "
         "modulo 2*pi) are spot-evaluated on the extracted terms and recorded as such. Not decided: get_random_point containment and points "
         "within round-off of a face; ScalarField.project only through the integrate weights.",
@@ -215,7 +215,7 @@ CHECKS = {
         "constants and variables reach lambdify and the call in the same order; every special function is known to the printer, present in "
         "the namespace and implemented with the printed arity; derivatives are taken with respect to the requested symbol(s) in vars order "
         "and keep signature, user_funcs and consts (also in the copy constructors); from_expression passes coordinates in grid.axes order "
-        "and writes components where they were read; alias lists and axis-alias tables map every alias to its canonical variable.",
+        "and writes components where they were read; alias lists and axis-alias tables map every alias to its canonical variable. Array-literal printers are interpreted in two stages (string building, then the emitted numpy code on symbolic entries): all components of rank-1 and rank-2 literals are broadcast jointly into shape tensor-shape + broadcast-shape; derivatives built with Matrix.jacobian are flagged unless transposed (derivative index first).",
         "note": "Trusted: sympy semantics (lambdify positional binding and module priority; known functions printed as name(args); Heaviside "
         "default second argument; derive_by_array index order); the LIB_MEANING table (numpy.heaviside/hypot, scipy.special.erf meaning and "
         "arity); dict insertion order. Run-time behaviour of sympy and numba is NOT decided; the private _make_expression_array route and "
@@ -230,7 +230,7 @@ CHECKS = {
         "operator, same field order, and -L(x) distinguished from L(-x). The expression(s) text, evaluated from source and parsed with a "
         "grammar for the printed notation, equals the rate with boundary terms dropped. For the generic expression PDE: the first matching "
         "`var:operator` condition is used with the `*:*` default appended last, and the compiled expression is called in signature order "
-        "with bc_args['t'] = t.",
+        "with bc_args['t'] = t. evolution_rate never hands `state` or a member of it to FieldCollection (which re-links fields) or to an in-place update; the special cases of expr_prod are guarded by exact comparisons and print exactly c*expression.",
         "note": "Trusted: CPython ast, sympy. Operators with boundary conditions are assumed affine; parameters generic (not 0, +-1). Not decided: "
         "arbitrary user expressions (C11 narrow clause), the 6-significant-digit printing of parameters, round-off between backends.",
     },
@@ -242,7 +242,7 @@ CHECKS = {
         "the nearest cell, periodic axes wrap modulo N, ghost-cell mode shifts indices by one. All three interpolators are the multilinear "
         "form with cell/weight pairing by tuple slot, hence exact at centres and on affine data, within the data range, and periodic; all "
         "callers test the sentinel before use. The compiled and the interpreted inserter add exactly `amount` to sum(V*u) and agree cell by "
-        "cell on every region, including which points they reject.",
+        "cell on every region, including which points they reject. The interpreted inserter updates one cell per statement execution (a fancy-indexed `+=` over the list of support cells loses contributions on repeated cells).",
         "note": "Assumes real arithmetic (divmod(x, 1.0) exact; weights clipped below 1e-15), N >= 1, cell_volumes[i,...] is the volume of valid "
         "cell i. Trusted: fx interpreter, sympy, the Fourier-Motzkin prover in c16.py (infeasibility only). Ghost-cell values are C02's; "
         "points within round-off of a branch boundary are not decided.",
